@@ -481,6 +481,24 @@ func (e *Engine) verifyFunc(fc *FuncContract) []*Oblig {
 		st.assume(val.S)
 	}
 	v.applyAt(st, 0, sc)
+	for _, names := range fc.Extra["uses"] {
+		for _, name := range strings.Fields(names) {
+			lm := e.findLemma(pkg.PkgPath, name)
+			if lm == nil {
+				v.specError(&Clause{Text: "uses " + name, Line: fc.Where}, fmt.Errorf("unknown lemma %s", name))
+				continue
+			}
+			if lm.Axiom {
+				e.ctx.trusted["axiom "+shortName(lm.Pkg)+"."+lm.Name+" (assumed, not proved)"] = true
+			}
+			ax, err := v.lemmaAxiom(st, lm)
+			if err != nil {
+				v.specError(&Clause{Text: "uses " + name, Line: fc.Where}, err)
+				continue
+			}
+			st.assume(ax)
+		}
+	}
 	v.entry = st.fork()
 
 	fl := v.block(st, decl.Body.List)
